@@ -896,7 +896,7 @@ def regenerate_loops(ctx=None):
 # ================================================================================================
 GUARD_INTS = {"nruns_so_far": "nrunsSoFar", "self.last_successful_run": "lastSuccessfulRun", "self.nf": "nf", "self.maxfun": "maxfun",
               "nf": "nf", "maxfun": "maxfun", "nruns": "nruns", "last_successful_run": "lastSuccessfulRun",
-              "params('restarts.max_unsuccessful_restarts')": "maxUnsucc"}
+              "params('restarts.max_unsuccessful_restarts')": "maxUnsucc", "m": "m", "len(x0)": "n"}
 GUARD_BOOLS = {"params('restarts.use_restarts')": "useRestarts", "params('restarts.use_soft_restarts')": "useSoft",
                "exit_info.able_to_do_restart()": "able", "ok_to_do_restart": "okToDoRestart"}
 
@@ -998,6 +998,17 @@ def translate_guards():
         return ("def hardRestartGuard (useRestarts useSoft able : Bool) (nf maxfun nruns lastSuccessfulRun maxUnsucc : Int) : Bool :=\n  %s\n"
                 % _gbool(wh[0].test))
     emit("hardRestartGuard", f_hard)
+
+    # solve_main: when the default growing method is switched to the (random) perturbation of the trust-region step
+    def f_grow():
+        fn = find_func(sol, "solve_main")
+        hits = [n for n in ast.walk(fn) if isinstance(n, ast.If)
+                and any("growing.perturb_trust_region_step" in ast.unparse(b) and "new_value=True" in ast.unparse(b) for b in n.body)
+                and "default_growing_method_set_by_user" not in ast.unparse(n.test)]
+        if len(hits) != 1:
+            raise Unsupported("%d candidate tests for the growing-method switch" % len(hits))
+        return "def growingSwitchToPerturb (m n : Int) : Bool :=\n  %s\n" % _gbool(hits[0].test)
+    emit("growingSwitchToPerturb", f_grow)
     return out
 
 
